@@ -320,6 +320,56 @@ def rule_g2(ctx, F):
     text_gate(ctx, "G2", fn, sets, [("a state is split off only when the predicate says it conflicts", [(("should_split",), True), (("call_mut",), True), (("FnMut",), True)])], accept_desc="marking a state as split")
 
 
+def loop_depth(fn, bid):
+    """Number of natural loops that contain block `bid`."""
+    from flow import dominators, reachable_blocks
+    dom = dominators(fn)
+    depth = 0
+    seen_heads = set()
+    for b in fn.blocks.values():
+        for e in b.succs:
+            h = e.to
+            if h in dom.get(b.id, ()) and (h, b.id) not in seen_heads:       # back edge b -> h
+                seen_heads.add((h, b.id))
+    heads = {}
+    for h, tail in seen_heads:
+        heads.setdefault(h, set()).add(tail)
+    for h, tails in heads.items():
+        # natural loop of h: nodes that reach a tail without passing through h
+        body = {h}
+        work = list(tails)
+        while work:
+            x = work.pop()
+            if x in body:
+                continue
+            body.add(x)
+            work.extend(p.src for p in fn.blocks[x].preds)
+        if bid in body:
+            depth += 1
+    return depth
+
+
+def rule_g5(ctx, F):
+    """G5: a group is split by comparing its members *pairwise*.  The first partition uses Minimizer::states_conflict,
+    which is not transitive (A may be compatible with both B and C while B and C conflict), so comparing every member
+    with one representative leaves conflicting states in one group.  In dedup::split_state_id_groups the predicate is
+    evaluated inside two nested loops over the group's members (inside the loop over the groups)."""
+    fn = find_fn(ctx, F, "dedup::split_state_id_groups", "G5")
+    if not fn:
+        return
+    calls = [pt for pt, c in fn.calls() if any(k in (c.get("fn") or "") + (c.get("tfn") or "") for k in ("call_mut", "FnMut", "should_split"))]
+    key = "split_state_id_groups:members-compared-pairwise"
+    if not calls:
+        ctx.bad("G5", key, "the call of the split predicate was not found in split_state_id_groups")
+        return
+    d = max(loop_depth(fn, pt[0]) for pt in calls)
+    if d >= 3:
+        ctx.ok("G5", key, "the split predicate is evaluated at loop depth %d: for every group, every member against every later member" % d)
+    else:
+        ctx.bad("G5", key, "the split predicate in split_state_id_groups is evaluated at loop depth %d (groups × members): each member is compared with one representative only, but states_conflict is not "
+                "transitive — two states that conflict with each other and are both compatible with the representative stay merged" % d)
+
+
 def rule_u1(ctx, F):
     """U1: a parse state's reductions are short-circuited ("unit reduction") only if every action in
     it is the same single-child reduce (production 0) of a symbol that leaves no trace in the tree —
@@ -626,6 +676,7 @@ def run(ctx):
     rule_f1(ctx, F)
     rule_g3(ctx, F)
     rule_g4(ctx, F)
+    rule_g5(ctx, F)
     return ctx.finish(
         "Determinism scan and merge-licence gates over rustc MIR of tree-sitter-generate: no iteration over RandomState-hashed containers, no clock/thread/pid/env/random source, no pointer→integer casts; "
         "states_conflict vets every entry it consumes, token_conflicts/entries_conflict say `no conflict` only after all their tests, merging only under OptLevel::MergeStates. "
